@@ -1,5 +1,5 @@
 from algo_prop import make
-LEAN_EXTRA = ["PyXABProofs.Generated.FormulasC09"]
+LEAN_EXTRA = ["PyXABProofs.Generated.OrderTieC09", "PyXABProofs.Generated.FormulasC09"]
 from common import fbits
 ALGOS = ['GPO', 'PCT', 'VPCT']
 budget, explore, search, replay = make("C09", ALGOS, quick_per_algo=12, thorough_per_algo=150, salt=900)
@@ -66,7 +66,8 @@ def explore(tier, seed, n):
 
 
 def regenerate(tier):
-    """translator tie for N and the phase length: GPO.__init__ is executed on symbolic (rho_max, n) and the traced
-    expressions are re-proved equal to the published ones over every field, on every run"""
-    import translate_formulas
-    return translate_formulas.generate("C09")
+    """translator ties re-proved on every run: numeric formulas traced from the real methods = published formulas over every
+    field (Spec/Formulas.lean), and selection rules run on order-only values for every order type = the model rules for all
+    values of any linear order (Spec/OrderType.lean, Props/OrderTie.lean)"""
+    import ties
+    return ties.regen("C09")
